@@ -48,4 +48,10 @@ CLAIMED['C02'] = dict(
     technique='CrossHair-engine symbolic execution of Importer.run (symbolic cell strings, stub spine importer) + z3-enumerated layout/string selectors against a reference spine-path model',
     design='5 C02')
 
+CLAIMED['C06'] = dict(
+    text=BMC + 'C06: spine_ids and spine_types are SYMBOLIC containers (one symbolic boolean per member, or None), so every subset of ids and of types is decided per layout in a handful of paths; layouts come from the reference spine-path model (solver-enumerated selector); the export is compared with the column projection of the full export (sub-spines followed through splits and joins by the model, all-null lines dropped). Public keywords (lists, tuples, None, omitted) and the spine-type query are enumerated on top.',
+    note=NOTE + 'More than 3 spines / 4 live columns / the stated operator-row depth are outside the claim.',
+    technique='CrossHair-engine symbolic execution of Exporter.export_string/append_row with symbolic membership containers for spine_ids and spine_types over z3-enumerated layouts',
+    design='5 C06')
+
 PENDING_REASON = 'check under construction in this session (to be claimed; see DESIGN.md section 5)'
